@@ -13,6 +13,14 @@ import (
    I will be making some changes to the grammar but I do want it to be as close to the specification as possible
 */
 
+// regexp_at returns the byte at index, or 0 once the regular expression has ended
+func regexp_at(regexp string, index int) byte {
+	if index < 0 || index >= len(regexp) {
+		return 0
+	}
+	return regexp[index]
+}
+
 func parse_regexp(tokens []*Token, token_index int) (AstExpression, int, error) {
 	regexp_token := tokens[token_index]
 	regexp := regexp_token.Lexeme
@@ -62,13 +70,13 @@ func parse_regexp_pattern(regexp_token *Token, regexp string, index int) (AstExp
 }
 
 func parse_regexp_number(regexp_token *Token, regexp string, index int) (int, int, error) {
-	c := regexp[index]
+	c := regexp_at(regexp, index)
 	result := ""
 	idx := index
 	for c >= '0' && c <= '9' {
 		result += string(c)
 		idx += 1
-		c = regexp[idx]
+		c = regexp_at(regexp, idx)
 	}
 	if result == "" {
 		return -1, index, NewParseError(regexp_token, "Unexpected Token. Expected number")
@@ -81,6 +89,9 @@ func parse_regexp_number(regexp_token *Token, regexp string, index int) (int, in
 }
 
 func parse_regexp_literal(regexp_token *Token, regexp string, index int) (AstExpression, int, error) {
+	if index >= len(regexp) {
+		return nil, index, NewParseError(regexp_token, "Unexpected end of regexp")
+	}
 	c := regexp[index]
 	var start AstLiteral
 	next_index := index
@@ -234,10 +245,13 @@ func parse_regexp_class_atom_escape(regexp_token *Token, regexp string, index in
 	if index+1 >= len(regexp) {
 		return nil, index + 1, NewParseError(regexp_token, "Unexpected end of regexp")
 	}
-	panic("PARSE ESCAPE CHARACTER")
+	return nil, index + 1, NewParseError(regexp_token, "Escaped characters inside a character class are not supported")
 }
 
 func parse_regexp_class_atom_string(regexp_token *Token, regexp string, index int) (*AstString, int, error) {
+	if index >= len(regexp) {
+		return nil, index, NewParseError(regexp_token, "Unexpected end of regexp")
+	}
 	if regexp[index] == ']' {
 		return nil, index, nil
 	}
@@ -265,10 +279,10 @@ func parse_regexp_quantifier(regexp_token *Token, regexp string, index int) (*As
 		if err != nil {
 			return nil, idx, err
 		}
-		comma_or_brace := regexp[idx]
+		comma_or_brace := regexp_at(regexp, idx)
 
 		if comma_or_brace == ',' {
-			if regexp[idx+1] == '}' {
+			if regexp_at(regexp, idx+1) == '}' {
 				exp = &AstLoop{from, -1, false, nil, ""}
 				end_idx = idx + 2
 			} else {
@@ -276,7 +290,7 @@ func parse_regexp_quantifier(regexp_token *Token, regexp string, index int) (*As
 				if err != nil {
 					return nil, idx, err
 				}
-				brace := regexp[idx2]
+				brace := regexp_at(regexp, idx2)
 				if brace != '}' {
 					return nil, idx2, NewParseError(regexp_token, "Unexpected character. Expected '}'")
 				}
@@ -287,6 +301,8 @@ func parse_regexp_quantifier(regexp_token *Token, regexp string, index int) (*As
 		} else if comma_or_brace == '}' {
 			exp = &AstLoop{from, from, false, nil, ""}
 			end_idx = idx + 1
+		} else {
+			return nil, idx, NewParseError(regexp_token, "Unexpected character. Expected ',' or '}'")
 		}
 	} else {
 		exp = nil
@@ -304,6 +320,9 @@ func parse_regexp_quantifier(regexp_token *Token, regexp string, index int) (*As
 }
 
 func parse_regexp_escape_characters(regexp_token *Token, regexp string, index int) (AstLiteral, int, error) {
+	if index >= len(regexp) {
+		return nil, index, NewParseError(regexp_token, "Unexpected end of regexp")
+	}
 	c := regexp[index]
 	if c >= '1' && c <= '9' {
 		if index+1 >= len(regexp) {
@@ -331,20 +350,20 @@ func parse_regexp_escape_characters(regexp_token *Token, regexp string, index in
 	} else if c == 'B' {
 		return &AstSubExpr{[]AstExpression{&AstList{true, []AstListable{&AstCharacterClass{false, ClassWordStart}, &AstCharacterClass{false, ClassWordEnd}}}}}, index + 1, nil
 	} else if c == 'k' {
-		d := regexp[index+1]
+		d := regexp_at(regexp, index+1)
 		if d != '<' {
 			return nil, index + 1, NewParseError(regexp_token, "Expected a < character for named group reference")
 		}
 		// named capture group
 		current_index := index + 2
-		current := regexp[current_index]
+		current := regexp_at(regexp, current_index)
 		identifier := ""
 		for unicode.IsDigit(rune(current)) || unicode.IsLetter(rune(current)) {
 			identifier += string(current)
 			current_index += 1
-			current = regexp[current_index]
+			current = regexp_at(regexp, current_index)
 		}
-		if regexp[current_index] != '>' {
+		if regexp_at(regexp, current_index) != '>' {
 			return nil, current_index, NewParseError(regexp_token, "Unexpected charactrer in named capture group identifier.")
 		}
 		return &AstVariable{identifier}, current_index + 1, nil
@@ -355,48 +374,48 @@ func parse_regexp_escape_characters(regexp_token *Token, regexp string, index in
 
 func parse_regexp_groups(regexp_token *Token, regexp string, index int) (AstLiteral, int, error) {
 	// already consumed the parenthesis
-	c := regexp[index]
+	c := regexp_at(regexp, index)
 	if c == '?' {
-		marker := regexp[index+1]
+		marker := regexp_at(regexp, index+1)
 		if marker == ':' {
 			// non capture group
 			subexpr, next_index, err := parse_regexp_disjunction(regexp_token, regexp, index+2)
 			if err != nil {
 				return nil, next_index, err
 			}
-			if regexp[next_index] != ')' {
+			if regexp_at(regexp, next_index) != ')' {
 				return nil, next_index, NewParseError(regexp_token, "Expected end parenthesis")
 			}
 			return &AstSubExpr{subexpr}, next_index + 1, nil
 		} else if marker == '=' {
-			panic("Positive lookahead unimplemented")
+			return nil, index, NewParseError(regexp_token, "Positive lookahead unimplemented")
 		} else if marker == '!' {
-			panic("Negative lookahead unimplemented")
+			return nil, index, NewParseError(regexp_token, "Negative lookahead unimplemented")
 		} else if marker == '<' {
 			// lookbehind or named capture group
-			a := regexp[index+2]
+			a := regexp_at(regexp, index+2)
 			if a == '=' {
-				panic("Positive lookbehind unimplemented")
+				return nil, index, NewParseError(regexp_token, "Positive lookbehind unimplemented")
 			} else if a == '!' {
-				panic("Negative lookahead unimplemented")
+				return nil, index, NewParseError(regexp_token, "Negative lookbehind unimplemented")
 			} else {
 				// named capture group
 				current_index := index + 2
-				current := regexp[current_index]
+				current := regexp_at(regexp, current_index)
 				identifier := ""
 				for unicode.IsDigit(rune(current)) || unicode.IsLetter(rune(current)) {
 					identifier += string(current)
 					current_index += 1
-					current = regexp[current_index]
+					current = regexp_at(regexp, current_index)
 				}
-				if regexp[current_index] != '>' {
+				if regexp_at(regexp, current_index) != '>' {
 					return nil, current_index, NewParseError(regexp_token, "Unexpected character in named capture group identifier.")
 				}
 				body, next_index, err := parse_regexp_disjunction(regexp_token, regexp, current_index+1)
 				if err != nil {
 					return nil, next_index, err
 				}
-				if regexp[next_index] != ')' {
+				if regexp_at(regexp, next_index) != ')' {
 					return nil, next_index, NewParseError(regexp_token, "Expected end parenthesis")
 				}
 				return &AstSubExpr{[]AstExpression{&AstDec{identifier, &AstSubExpr{body}}}}, next_index + 1, nil
@@ -414,7 +433,7 @@ func parse_regexp_groups(regexp_token *Token, regexp string, index int) (AstLite
 	if err != nil {
 		return nil, next_index, err
 	}
-	if regexp[next_index] != ')' {
+	if regexp_at(regexp, next_index) != ')' {
 		return nil, next_index, NewParseError(regexp_token, "Expected end parenthesis")
 	}
 	return &AstSubExpr{[]AstExpression{&AstDec{fmt.Sprintf("_%d", group_number), &AstSubExpr{subexpr}}}}, next_index + 1, nil
